@@ -97,3 +97,52 @@ def witness_search(unit_res, failure, root, build):
             failure['replay_result'] = {'ran': True, 'reproduced': True, 'exit': 1, 'stdout': p.stdout[-1500:]}
             break
     failure['witness_search'] = tried
+
+def run_explorations(unit_res, explorations, root, build):
+    """thorough tier: bounded exhaustive replays on the REAL code (witness-search programs run
+    proactively). Each is a bounded stand-in, never counted as proved: exit 0 = held on
+    everything explored, exit 1 = a failing input (printed by the program), else undecided."""
+    import shutil
+    import subprocess
+    crate = os.path.join(root, 'replay')
+    env = dict(os.environ)
+    env['CARGO_NET_OFFLINE'] = 'true'
+    env['CARGO_TARGET_DIR'] = os.path.join(build, 'replay-target')
+    env['RUSTFLAGS'] = '--cfg isographlabs_isograph_verif'
+    env['RUST_BACKTRACE'] = '0'
+    shutil.copy('/repo/Cargo.lock', os.path.join(crate, 'Cargo.lock'))
+    for e in explorations:
+        obl = {'name': e['obligation'], 'props': e['props'], 'backend': 'native replay on the real crates (/verif/replay)',
+               'bounded': e['bounded'], 'kind': 'bounded exhaustive replay', 'cmd': ' '.join(e['cmd'])}
+        b = subprocess.run(['cargo', 'build', '--offline', '--bin', e['cmd'][0]], cwd=crate, env=env, capture_output=True, text=True)
+        if b.returncode != 0:
+            obl['status'] = 'undecided'
+            unit_res['undecided'] = unit_res['undecided'] or ('exploration %s does not build: %s' % (e['cmd'][0], b.stderr[-600:]))
+            unit_res['obligations'].append(obl)
+            continue
+        exe = os.path.join(env['CARGO_TARGET_DIR'], 'debug', e['cmd'][0])
+        os.makedirs(os.path.join(build, 'replay-work'), exist_ok=True)
+        t0 = time.time()
+        try:
+            p = subprocess.run([exe] + e['cmd'][1:], capture_output=True, text=True, timeout=e.get('timeout', 1800), env=env, cwd=os.path.join(build, 'replay-work'))
+        except subprocess.TimeoutExpired:
+            obl['status'] = 'undecided'
+            unit_res['undecided'] = unit_res['undecided'] or ('exploration %s timed out' % e['cmd'][0])
+            unit_res['obligations'].append(obl)
+            continue
+        obl['wall_s'] = round(time.time() - t0, 1)
+        obl['stdout'] = p.stdout[-400:]
+        if p.returncode == 0:
+            obl['status'] = 'discharged'
+        elif p.returncode == 1:
+            obl['status'] = 'failed'
+            unit_res['failures'].append({
+                'obligation': e['obligation'], 'props': e['props'], 'message': 'bounded exhaustive replay found a failing input',
+                'rendered': p.stdout[-3000:], 'label': e['obligation'], 'block': None, 'serves': e['props'],
+                'concrete_input': {'witness_program': '/verif/replay/src/bin/%s.rs' % e['cmd'][0], 'args': e['cmd'][1:]},
+                'replay_result': {'ran': True, 'reproduced': True, 'exit': 1, 'stdout': p.stdout[-1500:]},
+            })
+        else:
+            obl['status'] = 'undecided'
+            unit_res['undecided'] = unit_res['undecided'] or ('exploration %s exited %d: %s' % (e['cmd'][0], p.returncode, (p.stderr or p.stdout)[-400:]))
+        unit_res['obligations'].append(obl)
